@@ -245,7 +245,9 @@ def termValid (t : List Char) : Bool :=
 abbrev Option' := List (List Char)      -- AND of terms
 abbrev Constraint := List Option'       -- OR of options
 
-def constraintValid (c : Constraint) : Bool := c.all (fun o => o.all termValid)
+/-- `Constraint.Validate`: at least one option, every option has at least one term, every term valid. -/
+def constraintValid (c : Constraint) : Bool :=
+  !c.isEmpty && c.all (fun o => !o.isEmpty && o.all termValid)
 def constraintsValid (cs : List Constraint) : Bool := cs.all constraintValid
 
 /-! ## The builder state -/
